@@ -62,6 +62,11 @@ class IntegratorTemplate(abc.ABC):
             total_error_tolerance = (atol + rtol * self.solver_dict["system_scaling"])
             with D.numpy.errstate(divide='ignore'):
                 epsilon_current = D.ar_numpy.reciprocal(D.ar_numpy.linalg.norm(diff / total_error_tolerance))
+            if not epsilon_current > 0.0:
+                # the norm of the scaled error estimate overflowed (or is not a number): the step is rejected with the strongest
+                # reduction and stays out of the controller's history, where 0 ** (negative exponent) = inf would accept the
+                # attempts that follow unconditionally
+                return (1 + D.ar_numpy.arctan(-1.0 + 0.0 * safety_factor)) * timestep, True
             if "epsilon_last" in self.solver_dict:
                 epsilon_last = self.solver_dict["epsilon_last"]
             else:
